@@ -279,12 +279,12 @@ Proof.
   - (* KX *) use_sig Hs. do 2 eexists. start_kind f bs. repeat split.
     intros _. cbn [val_matches spec_value]. apply bytes_model_spec.
   - (* KE *) use_sig Hs. apply Nat.leb_le in H1.
-    destruct (enum_conv (resolve (f_to f)) (resolve (f_attrs_conv f))) as [e'|] eqn:Ec; [|discriminate].
+    destruct (enum_conv_full (resolve (f_to f)) (resolve (f_attrs_conv f))) as [e'|] eqn:Ec; [|discriminate].
     apply String.eqb_eq in H0.
     pose proof (uval_bound bs) as Hb.
     assert (2 ^ Z.of_nat (length bs) <= 256) by (apply pow2_le_256; lia).
     destruct (enum_code_sem e' e (uval bs) H0 ltac:(lia)) as (m & Em & Hin & Hdef).
-    unfold enum_conv in Ec.
+    unfold enum_conv_full, enum_conv in Ec.
     destruct (resolve (f_to f)) eqn:Eto; destruct (resolve (f_attrs_conv f)) eqn:Eat; try discriminate;
       injection Ec as ->;
       (exists (match resolve (f_to f) with RNone => VInt (uval bs) | _ => VEnum e' m end), (VEnum e' m));
